@@ -263,15 +263,19 @@ class AbstractPool:
                         dbname,
                         state.PickledDatabaseState(
                             user_schema_pickle=(
-                                user_schema_pickle
-                                or worker_db.user_schema_pickle
+                                worker_db.user_schema_pickle
+                                if user_schema_pickle is None
+                                else user_schema_pickle
                             ),
                             reflection_cache=(
-                                reflection_cache
-                                or worker_db.reflection_cache
+                                worker_db.reflection_cache
+                                if reflection_cache is None
+                                else reflection_cache
                             ),
                             database_config=(
-                                database_config or worker_db.database_config
+                                worker_db.database_config
+                                if database_config is None
+                                else database_config
                             ),
                         ),
                     )
@@ -1441,14 +1445,19 @@ class MultiTenantPool(FixedPool):
                         dbname,
                         state.PickledDatabaseState(
                             user_schema_pickle=(
-                                user_schema_pickle
-                                or worker_db.user_schema_pickle
+                                worker_db.user_schema_pickle
+                                if user_schema_pickle is None
+                                else user_schema_pickle
                             ),
                             reflection_cache=(
-                                reflection_cache or worker_db.reflection_cache
+                                worker_db.reflection_cache
+                                if reflection_cache is None
+                                else reflection_cache
                             ),
                             database_config=(
-                                database_config or worker_db.database_config
+                                worker_db.database_config
+                                if database_config is None
+                                else database_config
                             ),
                         )
                     )
